@@ -75,10 +75,42 @@ A, B, N = make()
 def call(k):
     return A(v=str(k), b={'v': str(k + 1)}, n=str(k + 2))
 '''
+# two classes that hold the SAME reference object (typing caches List['Leaf']), each with its own parser: thread 1 uses the first,
+# thread 2 the second
+SRC_SHARED_LOCAL = '''
+from typing import List
+from utype import Schema
+def make(name):
+    class Local(Schema):
+        tag: str = name
+        lines: List['Leaf']
+    return Local
+L = [make('a'), make('b')]
+class Leaf(Schema):
+    v: int
+def call(k):
+    return L[k % 2](lines=[{'v': str(k)}])
+'''
+SRC_SHARED_MODULE = '''
+from typing import List
+from utype import Schema
+class Order(Schema):
+    lines: List['Leaf']
+class Invoice(Schema):
+    lines: List['Leaf']
+L = [Order, Invoice]
+class Leaf(Schema):
+    v: int
+def call(k):
+    return L[k % 2](lines=[{'v': str(k)}])
+'''
 SCENARIOS = {"class": SRC_CLASS, "func": SRC_FUNC, "cons": SRC_CONS, "local": SRC_LOCAL}
+SHARED = {"shared-local": SRC_SHARED_LOCAL, "shared-module": SRC_SHARED_MODULE}
+TAGS = {"func": "@f", "shared-local": "@Local", "shared-module": {1: "@Order", 2: "@Invoice"}}
 # model action -> label of the source line that performs it (harness/sched.py PATTERNS)
 MODEL2CODE = {"Check": "Check", "Check2": "Check", "Acquire": "Acquire", "Snapshot": "Snapshot", "Lookup": "Lookup", "Eval": "Eval",
-              "Annot": "Annot", "Pop": "Pop", "Mark": "Mark", "UpdField": "UpdField", "ClearLocal": "ClearLocal", "PopAll": "Pop"}
+              "Annot": "Annot", "Pop": "Pop", "Mark": "Mark", "UpdField": "UpdField", "ClearLocal": "ClearLocal", "PopAll": "Pop",
+              "Upd": "UpdField", "Clear": "ClearLocal"}       # (the last two: actions of ConcShared)
 _n = [0]
 
 
@@ -154,7 +186,7 @@ def targets():
 # ---- scenario runners ---------------------------------------------------------------------------------------
 def run_refs(scn, nthreads, schedule, by_label=None, strict=True):
     """schedule: list of (tid, nsteps) segments; by_label: list of (tid, label) model steps (TLC counterexample)"""
-    src = SCENARIOS[scn]
+    src = SCENARIOS.get(scn) or SHARED[scn]
     alone = {}
     for t in range(1, nthreads + 1):
         m = load(src)
@@ -163,15 +195,16 @@ def run_refs(scn, nthreads, schedule, by_label=None, strict=True):
     s = Sched(targets(), label_of)
     for t in range(1, nthreads + 1):
         s.spawn(t, (lambda k: (lambda: m.call(k)))(t - 1))
-    tag = "@f" if scn == "func" else "@A"
+    tags = TAGS.get(scn, "@A")
     for tid, lab in by_label or []:
+        tag = tags[tid] if isinstance(tags, dict) else tags
         if tid > nthreads:
             continue
         if lab == "ReadField":          # the thread has picked up field.type and stands in front of dereferencing it
             s.run_to(tid, "Convert@TypeTransformer")
         elif lab == "Convert":
             s.run_until(tid, "Convert@TypeTransformer")
-        elif lab == "ClearLocal" and scn != "local":
+        elif lab in ("ClearLocal", "Clear") and scn not in ("local", "shared-local"):
             continue
         elif lab in MODEL2CODE:
             if not s.run_until(tid, MODEL2CODE[lab] + tag) and strict:
@@ -250,7 +283,7 @@ def tlc_schedule(res):
     return [(t, l) for t, l in out if l in MODEL2CODE or l in ("ReadField", "Convert")]
 
 
-def model_walks(cfg, rng, limit):
+def model_walks(cfg, rng, limit, module="ConcRefs"):
     """behaviours of ConcRefs under cfg as (thread, action) sequences: TLC dumps the labelled state graph; all complete
     paths when there are at most `limit`, otherwise `limit` random walks"""
     import collections
@@ -260,7 +293,7 @@ def model_walks(cfg, rng, limit):
     import shutil
     d = tlc.scratch("c20graph-")
     try:
-        r = tlc.run("ConcRefs", cfg, workers=1, extra=("-dump", "dot,actionlabels", os.path.join(d, "g.dot")))
+        r = tlc.run(module, cfg, workers=1, extra=("-dump", "dot,actionlabels", os.path.join(d, "g.dot")))
         if r.invariant_violated:
             raise MachineryError("%s: the graph to walk violates %s" % (cfg, r.invariant_violated))
         text = open(os.path.join(d, "g.dot")).read()
@@ -331,7 +364,19 @@ def main():
     sh = tlc.run("ConcRegistry", "MC_ConcRegistry_shared.cfg")
     if not sh.invariant_violated:
         raise MachineryError("P_PostAsAlone not falsified on ConcRegistry CacheMode=shared")
-    ck.count("refuted_variants", 4)
+    # two parsers holding one reference object: a lock per parser is not enough for local classes (commit 2234c1b shares one);
+    # clearing the reference for every parser (not only local ones) is not safe either
+    for cfg in ("MC_ConcShared_local.cfg", "MC_ConcShared_module.cfg"):
+        r = tlc.run("ConcShared", cfg)
+        ck.mc(r, cfg)
+        if r.invariant_violated:
+            ck.note("model-level counterexample in %s: %s" % (cfg, r.invariant_violated))
+            ck.count("model_only_counterexamples")
+    shared_bad = tlc.run("ConcShared", "MC_ConcShared_local_perparser.cfg")
+    if not shared_bad.invariant_violated or not tlc.run("ConcShared", "MC_ConcShared_module_clearall.cfg").invariant_violated:
+        raise MachineryError("P_AsAlone not falsified on ConcShared with a lock per parser / with references cleared for every parser")
+    ck.count("refuted_variants", 6)
+    directed_shared = tlc_schedule(shared_bad)
     directed = tlc_schedule(orig)
     ck.note("schedule derived from TLC's counterexample for the pinned commit: %s" % directed)
     directed_local = tlc_schedule(early)
@@ -349,6 +394,18 @@ def main():
         ck.count("model_behaviours_replayed_%s_%d" % (scn, nth), len(walks))
         for w in walks:
             runs.append(run_refs(scn, nth, [], by_label=w, strict=False))
+    for cfg, scn in (("MC_ConcShared_local.cfg", "shared-local"), ("MC_ConcShared_module.cfg", "shared-module")):
+        walks, total, gr = model_walks(cfg, rng, 400 if thorough else 60, module="ConcShared")
+        ck.count("model_behaviours_%s_2" % scn, total)
+        ck.count("model_behaviours_replayed_%s_2" % scn, len(walks))
+        for w in walks:
+            runs.append(run_refs(scn, 2, [], by_label=w, strict=False))
+        # TLC's counterexample for a lock per parser, and every single / sampled double preemption
+        runs.append(run_refs(scn, 2, [], by_label=directed_shared, strict=False))
+        n1 = run_refs(scn, 1, [(1, 10 ** 6)])["nsteps"]
+        for k in sorted(set(rng.sample(range(n1 + 1), min(n1 + 1, 25))) | {0, 1, n1}):
+            runs.append(run_refs(scn, 2, [(1, k), (2, 10 ** 6)]))
+            runs.append(run_refs(scn, 2, [(2, k), (1, 10 ** 6)]))
     for scn in SCENARIOS:
         runs.append(run_refs(scn, 2, [], by_label=directed))        # TLC's own interleaving
         runs.append(run_refs(scn, 2, [], by_label=directed_local, strict=False))
